@@ -443,10 +443,10 @@ func Judge(sc *Scenario, tr *Trace) ([]pbt.Violation, Stats) {
 	}
 	sendResolvedOf := func(cfg *Config, receiver string, idx int) bool {
 		rc := cfg.ReceiverByName(receiver)
-		if rc == nil || idx >= len(rc.Integrations) {
+		if rc == nil || rc.ByID(idx) == nil {
 			return false
 		}
-		return rc.Integrations[idx].SendResolved
+		return rc.ByID(idx).SendResolved
 	}
 
 	// ---- per-attempt structure (C06), suppression (C02, C03, C15), truthfulness (C05)
